@@ -966,3 +966,6 @@ CASES["C06"] += [
 CASES["C12"] += [
     ("reintroduce F-52 (cast chain fused across a cast with other users)", "mutant", "snaxc/transforms/realize_memref_casts.py", "@revert:bf1360a~1", "", ["C12.chain"]),
 ]
+CASES["C13"] += [
+    ("reintroduce F-53 (every barrier empties the pending list)", "mutant", "snaxc/transforms/insert_sync_barrier.py", "@revert:b9ac12d~1", "", ["C13.barrier-scope"]),
+]
